@@ -266,6 +266,12 @@ def judge(rec, entry, outcome, payload):
     return None
 
 
+def _warm(i):
+    import time
+    time.sleep(0.3)
+    return os.getpid()
+
+
 def _eval_chunk(args):
     recs, entries, workdir, base = args
     if _REC is None:
@@ -422,7 +428,12 @@ def run(ck: Check):
         plan = [("MC_ExprEval_exh_q.cfg", None, ent_all, 6),
                 ("MC_ExprEval_rand.cfg", ck.seed, ent_all, 1)]
     items = []
-    with ThreadPoolExecutor(6) as tp, ProcessPoolExecutor(ncpu, initializer=_init_worker) as pool:
+    with ProcessPoolExecutor(ncpu, initializer=_init_worker) as pool, ThreadPoolExecutor(6) as tp:
+        # All worker processes are forked HERE, before any thread starts a TLC subprocess: a
+        # fork that happens while subprocess.Popen is between fork and exec inherits Popen's
+        # error pipe and blocks that Popen (and with it TLC's stdout) for ever.
+        if len(set(pool.map(_warm, range(ncpu * 4)))) < 1:
+            raise Machinery("worker pool did not start")
         # role A runs and the generators run side by side (each TLC run is small; JVM start-up
         # dominates); accounting happens here, in the main thread
         # (the random generators, the slowest jobs, are started first; role A last, its
